@@ -393,4 +393,47 @@ def flipFrom (val : Nat) : Nat → List (Bytes × Bytes) → Nat → List Stream
 
 def flipViews (ms : List (Bytes × Bytes)) (pos val : Nat) : List Stream := flipFrom val 0 ms pos
 
+/-! ## specification vocabulary (used by the theorems, not by the engine) -/
+
+/-- everything the members named `nm` carry, concatenated in archive order -/
+def cat (nm : Bytes) (ms : List Member) : Bytes := (ms.filter (·.name = nm)).flatMap (·.data)
+
+/-- the payloads of the meta.json members, in archive order -/
+def metas (ms : List Member) : List Bytes := (ms.filter (·.name = nMeta)).map (·.data)
+
+/-- decoding the payloads one after the other onto the same struct -/
+def foldApply (apply : M → Bytes → Option M) : M → List Bytes → Option M
+  | m, [] => some m
+  | m, b :: bs =>
+    match apply m b with
+    | none => none
+    | some m' => foldApply apply m' bs
+
+/-- every member is complete and carries one of the three known names -/
+def Clean (ms : List Member) : Prop :=
+  ∀ x ∈ ms, x.short = false ∧ (x.name = nMeta ∨ x.name = nState ∨ x.name = nSums)
+
+/-- the (digest, name) entries of a SHA256SUMS text, `none` when a line does not scan -/
+def parseLines : List Bytes → Option (List (Bytes × Bytes))
+  | [] => some []
+  | l :: ls =>
+    if 65536 ≤ l.length then none
+    else match scanLine (dropCR l) with
+      | none => none
+      | some e =>
+        match parseLines ls with
+        | none => none
+        | some es => some (e :: es)
+
+def parseSums (sums : Bytes) : Option (List (Bytes × Bytes)) := parseLines (splitLines sums)
+
+/-- SHA256SUMS scans, lists nothing but the two names with exactly the digests `hm`, `hs`,
+    and lists both. -/
+def SumsOK (hm hs sums : Bytes) : Prop :=
+  ∃ es, parseSums sums = some es ∧ (∀ e ∈ es, e = (hm, nMeta) ∨ e = (hs, nState)) ∧
+    (hm, nMeta) ∈ es ∧ (hs, nState) ∈ es
+
+/-- what the theorems ask of a digest value: 32 bytes (`sha256.Size`) -/
+def DigestOK (d : Bytes) : Prop := d.length = 32 ∧ ∀ b ∈ d, b < 256
+
 end CV.Tar
